@@ -81,8 +81,8 @@ func (f *Formatter) formatStatement(stmt ast.Statement) *Line {
 			// When "else" statement exists, trailing comment will be on it
 			trailingNode = t.Alternative
 		case len(t.Another) > 0:
-			// When one of "else if" statement exists, trailing comment will be on it
-			trailingNode = t.Another[len(t.Another)-1]
+			// When one of "else if" statement exists, trailing comment will be on its block
+			trailingNode = t.Another[len(t.Another)-1].Consequence
 		default:
 			// Otherwise, trailing comment will be on consequence
 			trailingNode = t.Consequence
@@ -253,24 +253,21 @@ func (f *Formatter) formatIfStatement(stmt *ast.IfStatement) string {
 	}
 
 	buf.WriteString(f.formatBlockStatement(stmt.Consequence))
-	if v := f.formatComment(stmt.Consequence.Trailing, "", 0); v != "" {
-		// If comment is inline , concat to the same line
-		if isInlineComment(stmt.Consequence.Trailing) {
-			buf.WriteString(" " + v)
-		} else {
-			// Otherwise, print to the new line
-			buf.WriteString("\n")
-			buf.WriteString(f.indent(stmt.Consequence.Nest-1) + v)
-			buf.WriteString("\n")
-		}
+	// The trailing comment of the last block is printed by formatStatement() as the
+	// trailing comment of the whole statement, here only when another branch follows.
+	var lineBroken bool
+	if len(stmt.Another) > 0 || stmt.Alternative != nil {
+		lineBroken = f.formatBranchTrailing(buf, stmt.Consequence)
 	}
 
 	// else if, elseif, elsif
-	for _, a := range stmt.Another {
+	for i, a := range stmt.Another {
 		// If leading comments exists or AlwaysNextLineElseIf configuration is enabled,
 		// The keyword should be printed on the next line.
-		if len(a.Leading) > 0 || f.conf.AlwaysNextLineElseIf {
-			buf.WriteString("\n")
+		if len(a.Leading) > 0 || f.conf.AlwaysNextLineElseIf || lineBroken {
+			if !lineBroken {
+				buf.WriteString("\n")
+			}
 			buf.WriteString(f.formatComment(a.Leading, "\n", a.Nest))
 			buf.WriteString(f.indent(a.Nest))
 		} else {
@@ -304,23 +301,18 @@ func (f *Formatter) formatIfStatement(stmt *ast.IfStatement) string {
 			buf.WriteString(v + " ")
 		}
 		buf.WriteString(f.formatBlockStatement(a.Consequence))
-		if v := f.formatComment(a.Consequence.Trailing, "", 0); v != "" {
-			// If comment is inline , concat to the same line
-			if isInlineComment(a.Consequence.Trailing) {
-				buf.WriteString(" " + v)
-			} else {
-				// Otherwise, print to the new line
-				buf.WriteString("\n")
-				buf.WriteString(f.indent(a.Consequence.Nest-1) + v)
-				buf.WriteString("\n")
-			}
+		lineBroken = false
+		if i < len(stmt.Another)-1 || stmt.Alternative != nil {
+			lineBroken = f.formatBranchTrailing(buf, a.Consequence)
 		}
 	}
 
 	// else
 	if stmt.Alternative != nil {
-		if len(stmt.Alternative.Leading) > 0 || f.conf.AlwaysNextLineElseIf {
-			buf.WriteString("\n")
+		if len(stmt.Alternative.Leading) > 0 || f.conf.AlwaysNextLineElseIf || lineBroken {
+			if !lineBroken {
+				buf.WriteString("\n")
+			}
 			buf.WriteString(f.formatComment(stmt.Alternative.Leading, "\n", stmt.Alternative.Nest))
 			buf.WriteString(f.indent(stmt.Alternative.Nest))
 		} else {
@@ -335,6 +327,25 @@ func (f *Formatter) formatIfStatement(stmt *ast.IfStatement) string {
 	}
 
 	return buf.String()
+}
+
+// Format the trailing comment of a block that is followed by another branch (else if / else).
+// It returns true when the comment ends the line, then the next keyword starts a new line.
+func (f *Formatter) formatBranchTrailing(buf *bytes.Buffer, block *ast.BlockStatement) bool {
+	v := f.formatComment(block.Trailing, "", 0)
+	if v == "" {
+		return false
+	}
+	// If comment is inline , concat to the same line
+	if isInlineComment(block.Trailing) {
+		buf.WriteString(" " + v)
+		return false
+	}
+	// Otherwise, print to the new line
+	buf.WriteString("\n")
+	buf.WriteString(f.indent(block.Nest-1) + v)
+	buf.WriteString("\n")
+	return true
 }
 
 // Format switch statement
